@@ -109,7 +109,7 @@ func claimFamily(m *Module) (claims, clears []*ssa.Function, accessor *ssa.Funct
 			clears = append(clears, f)
 		case r.Len() == 1:
 			if p, ok := r.At(0).Type().(*types.Pointer); ok {
-				if n, ok := p.Elem().(*types.Named); ok && n.Obj().Name() == "owners" {
+				if n, ok := p.Elem().(*types.Named); ok && tname(n.Obj()) == "owners" {
 					accessor = f
 				}
 			}
@@ -135,13 +135,13 @@ func ledgerFamily(m *Module) (claims, clears []*ssa.Function) {
 // ledgerOf resolves a claim/clear function to the ledger method that does the work: the method of
 // *owners itself, or the one such method a wrapper of resultOwners calls.
 func ledgerOf(m *Module, f *ssa.Function) *ssa.Function {
-	if rn := recvNamed(f); rn != nil && rn.Obj().Name() == "owners" {
+	if rn := recvNamed(f); rn != nil && tname(rn.Obj()) == "owners" {
 		return f
 	}
 	var found *ssa.Function
 	for _, ci := range calls(f) {
 		g := m.callee(ci.Common())
-		if rn := recvNamed(g); rn != nil && rn.Obj().Name() == "owners" {
+		if rn := recvNamed(g); rn != nil && tname(rn.Obj()) == "owners" {
 			if found != nil && found != g {
 				return nil
 			}
